@@ -1,15 +1,17 @@
 #!/bin/bash
 # usage: seedrun.sh <seeded-dir-name|patch-file> [tier] [props...]   (default: the property the seed names, quick)
+# (works from any worktree of /verif: paths are relative to this script)
 # Runs the checks against a scratch worktree of /repo with the seeded change applied (VERIF_REPO), never touching /repo.
 set -u
+HERE=$(cd "$(dirname "$0")" && pwd)
 S=$1; TIER=${2:-quick}; shift; shift 2>/dev/null
-if [ -d /verif/seeded/$S ]; then P=/verif/seeded/$S/patch.diff; else P=$S; fi
+if [ -d $HERE/seeded/$S ]; then P=$HERE/seeded/$S/patch.diff; else P=$S; fi
 PROPS=${@:-$(basename $S | cut -d- -f1)}
 WT=/tmp/mrepo-$$
 git -C /repo worktree add -q --detach $WT HEAD || exit 2
 trap 'git -C /repo worktree remove --force $WT >/dev/null 2>&1; rm -rf $WT' EXIT
 git -C $WT apply $P || { echo "PATCH DOES NOT APPLY: $P"; exit 2; }
-cd /verif
+cd $HERE
 for p in $PROPS; do
   VERIF_REPO=$WT ./check $p $TIER 2>&1 | grep -v '^KNOWN-FINDING' | tail -n 3 | cut -c1-260 | sed "s|^|[$S/$p] |"
 done
